@@ -55,8 +55,8 @@ P.update({
             "2-64 simultaneous clients (unix + TCP) against one listen() server, each pipelining a random globally-token-tagged sequence with random depth/segmentation/delays, beside idle, half-message, close-mid-message, garbage and byte-dripping peers that stay open until every well-behaved client has finished (so completion is decided by event order, not by a timeout); each client's stream is judged by the C01 aligner plus a foreign-token scan.",
             "OS schedules are sampled by randomised timing; completion orders observed are counted. Races invisible in the reply streams are left to the TSan overlay (thorough).", "4 C13"),
     "C15": ("exploration", "runtime monitor: timestamped scenario histories (one monotonic clock) against ordering oracles; timing-based candidates re-run in isolation",
-            "A scenario matrix (idle timeout 0/1/2 s x stop flag none/before/during/never x three pool shapes x seven connection histories incl. arrival just before the deadline, long-lived across deadlines, close at the deadline, streaming reply in flight, queued-but-accepted connection at stop, connection churn after the flag x jitter) runs against real listen() threads; oracles on event order: result kind, no Timeout earlier than T after the last connect, no return before every served connection is closed, no truncated reply, socket path removed; promptness as a bounded criterion confirmed by three isolated re-runs.",
-            "Wall-clock only enters through a generous bound (+3 s) whose single expiry is inconclusive; select() interrupted by signals and the Windows branch are out of reach.", "4 C15"),
+            "A scenario matrix (idle timeout 0/1/2 s x stop flag none/before/during/never x three pool shapes x ten connection histories incl. handled signals delivered to the thread inside listen() while it waits, a panicking handler, arrival just before the deadline, long-lived across deadlines, close at the deadline, streaming reply in flight, queued-but-accepted connection at stop, connection churn after the flag x jitter) runs against real listen() threads; oracles on event order: result kind, no Timeout earlier than T after the last connect, no return before every served connection is closed, no truncated reply, socket path removed; promptness as a bounded criterion confirmed by three isolated re-runs.",
+            "Wall-clock only enters through a generous bound (+3 s) whose single expiry is inconclusive; the Windows branch is out of reach.", "4 C15"),
 })
 
 P.update({
